@@ -26,6 +26,10 @@ struct Spec {
     run_ret: &'static str,
     api_f_param: &'static str,
     out_h_ret: &'static str,
+    /// the world also has `export inl: interface { q: func(); }` (an instance export under a plain name)
+    inl: bool,
+    /// the world has a world-level `use <iface>.{r};` (imports the interface and the *type* `r`)
+    world_use: Option<&'static str>,
 }
 
 impl Spec {
@@ -60,14 +64,22 @@ impl Spec {
         s.push_str("}\n");
         s.push_str(&format!("interface out {{\n  h: func() -> {};\n}}\n", self.out_h_ret));
         s.push_str("interface other {\n  o: func();\n}\n");
+        s.push_str("interface alt {\n  record r { b: u16 }\n}\n");
         if with_world {
-            s.push_str("world w {\n  import api;\n");
+            s.push_str("world w {\n");
+            if let Some(i) = self.world_use {
+                s.push_str(&format!("  use {i}.{{r}};\n"));
+            }
+            s.push_str("  import api;\n");
             if self.explicit_types {
                 s.push_str("  import types;\n");
             }
             s.push_str(&format!("  import log: func(msg: {});\n", self.log_ty));
             s.push_str("  export out;\n");
             s.push_str(&format!("  export run: func(){};\n", ret(self.run_ret)));
+            if self.inl {
+                s.push_str("  export inl: interface {\n    q: func();\n  }\n");
+            }
             s.push_str("}\n");
         }
         s
@@ -90,6 +102,10 @@ fn component_world(dep: &Spec, imports: &[&str], exports: &[&str], log_ty: &str,
             "api" | "types" | "other" => s.push_str(&format!("  import {};\n", dep.iface_ref(i))),
             "log" => s.push_str(&format!("  import log: func(msg: {log_ty});\n")),
             "extra" => s.push_str("  import extra: func();\n"),
+            // a world-level `use`: the component imports the interface and the type `r` (kept
+            // alive by an exported function)
+            "use-r" => s.push_str(&format!("  use {}.{{r}};\n  export conv: func(x: r);\n", dep.iface_ref("types"))),
+            "use-alt-r" => s.push_str(&format!("  use {}.{{r}};\n  export conv: func(x: r);\n", dep.iface_ref("alt"))),
             _ => {}
         }
     }
@@ -98,6 +114,9 @@ fn component_world(dep: &Spec, imports: &[&str], exports: &[&str], log_ty: &str,
             "out" => s.push_str(&format!("  export {};\n", dep.iface_ref("out"))),
             "run" => s.push_str(&format!("  export run: func(){};\n", ret(run_ret))),
             "bonus" => s.push_str("  export bonus: func();\n"),
+            "inl" => s.push_str("  export inl: interface {\n    q: func();\n  }\n"),
+            "inl-wide" => s.push_str("  export inl: interface {\n    q: func();\n    z: func();\n  }\n"),
+            "inl-func" => s.push_str("  export inl: func();\n"),
             _ => {}
         }
     }
@@ -156,7 +175,7 @@ fn resolve_verdict(source: &str, wit: &[u8], wver: &Option<semver::Version>, com
 }
 
 #[allow(clippy::too_many_arguments)]
-fn one_case(out: &mut Out, label: &str, target: &Spec, dep: &Spec, imports: &[&str], exports: &[&str], log_ty: &str, run_ret: &str, explicit_log: bool, inline: bool) {
+fn one_case(out: &mut Out, label: &str, target: &Spec, dep: &Spec, imports: &[&str], exports: &[&str], log_ty: &str, run_ret: &str, explicit_log: bool, inline: bool, decls: &[&str]) {
     let wit_text = target.package_text(true);
     let wit_bytes = match wit_bytes(&[("w", &wit_text)]) {
         Ok(b) => b,
@@ -196,21 +215,48 @@ fn one_case(out: &mut Out, label: &str, target: &Spec, dep: &Spec, imports: &[&s
             None => format!("t:w/{n}"),
         };
         let mut w = "world w {\n".to_string();
+        if let Some(i) = target.world_use {
+            w.push_str(&format!("  use {}.{{r}};\n", vr(i)));
+        }
         w.push_str(&format!("  import {};\n", vr("api")));
         if target.explicit_types {
             w.push_str(&format!("  import {};\n", vr("types")));
         }
         w.push_str(&format!("  import log: func(msg: {});\n", target.log_ty));
         w.push_str(&format!("  export {};\n", vr("out")));
-        w.push_str(&format!("  export run: func(){};\n}}\n", ret(target.run_ret)));
+        w.push_str(&format!("  export run: func(){};\n", ret(target.run_ret)));
+        if target.inl {
+            w.push_str("  export inl: interface {\n    q: func();\n  };\n");
+        }
+        w.push_str("}\n");
         w
     } else {
         String::new()
     };
-    let body = if explicit_log && imports.contains(&"log") {
-        format!("{inline_world}import log: func(msg: {log_ty});\nlet c = new t:c {{ log, ... }};\nexport c...;\n")
+    // declarations of the document itself: each is exported from the composition as a *type*
+    // under its name (kind confusion with a world export / import of the same name), and an
+    // import of a type where the world imports a function
+    let mut decl_text = String::new();
+    let mut import_text = String::new();
+    for d in decls {
+        match *d {
+            "iface-inl" => decl_text.push_str("interface inl {\n  q: func();\n}\n"),
+            "iface-inl-wide" => decl_text.push_str("interface inl {\n  q: func();\n  z: func();\n}\n"),
+            "iface-inl-other" => decl_text.push_str("interface inl {\n  q: func(x: u32);\n}\n"),
+            "type-run" => decl_text.push_str(&format!("type run = func(){};\n", ret(run_ret))),
+            "type-inl-func" => decl_text.push_str("type inl = func();\n"),
+            "iface-run" => decl_text.push_str("interface run {\n  q: func();\n}\n"),
+            "record-log" => {
+                decl_text.push_str("record logrec {\n  a: u8,\n}\n");
+                import_text.push_str("import log: logrec;\n");
+            }
+            _ => {}
+        }
+    }
+    let body = if explicit_log && imports.contains(&"log") && import_text.is_empty() {
+        format!("{inline_world}{decl_text}import log: func(msg: {log_ty});\nlet c = new t:c {{ log, ... }};\nexport c...;\n")
     } else {
-        format!("{inline_world}let c = new t:c {{ ... }};\nexport c...;\n")
+        format!("{inline_world}{decl_text}{import_text}let c = new t:c {{ ... }};\nexport c...;\n")
     };
     let with_targets = format!("package x:y targets {target_path};\n{body}");
     let without = format!("package x:y;\n{body}");
@@ -221,8 +267,11 @@ fn one_case(out: &mut Out, label: &str, target: &Spec, dep: &Spec, imports: &[&s
     // the composition graph of the same document without the clause
     let doc = match Document::parse(&without) {
         Ok(d) => d,
-        Err(_) => {
+        Err(e) => {
             out.count("gen:doc-rejected");
+            if std::env::var("WACV_DEBUG").is_ok() {
+                eprintln!("doc rejected: {e}\n{without}");
+            }
             return;
         }
     };
@@ -375,6 +424,32 @@ fn one_case(out: &mut Out, label: &str, target: &Spec, dep: &Spec, imports: &[&s
     };
     fields.push(oracle);
     out.count(&format!("gen:{label}"));
+    // kind confusion actually present in the observed composition: a world export of instance /
+    // function kind that the composition exports as a type
+    {
+        let w = &graph.types()[wid];
+        for (n, k) in &gexports {
+            if let (ItemKind::Type(_), Some(wk)) = (k, w.exports.get(n)) {
+                out.count(match wk.promote() {
+                    ItemKind::Instance(_) => "confusion:type-for-instance-export",
+                    ItemKind::Func(_) => "confusion:type-for-func-export",
+                    _ => "confusion:type-for-other-export",
+                });
+            }
+        }
+        for (n, k) in &gimports {
+            if let ItemKind::Type(_) = k {
+                out.count(if w.imports.contains_key(n) { "type-import:in-world" } else { "type-import:not-in-world" });
+            }
+            if let (ItemKind::Type(_), Some(wk)) = (k, w.imports.get(n)) {
+                out.count(match wk.promote() {
+                    ItemKind::Instance(_) => "confusion:type-for-instance-import",
+                    ItemKind::Func(_) => "confusion:type-for-func-import",
+                    _ => "confusion:type-for-other-import",
+                });
+            }
+        }
+    }
     out.count(if inline { "world:inline" } else { "world:wit-package" });
     out.case(true, "tgt", &fields);
 }
@@ -423,11 +498,15 @@ fn api_case(out: &mut Out, r: &mut Rng) {
             let ty = r.chance(1, 2);
             we_.push((n.to_string(), pick_item(r, ty)));
         }
+        // the component's own items are now and then *type* items (kind confusion: a type where
+        // the world has an instance / a function of that name is not promoted)
         if r.chance(1, 2) {
-            ci.push((n.to_string(), pick_item(r, false)));
+            let ty = r.chance(1, 6);
+            ci.push((n.to_string(), pick_item(r, ty)));
         }
         if r.chance(1, 2) {
-            ce.push((n.to_string(), pick_item(r, false)));
+            let ty = r.chance(1, 6);
+            ce.push((n.to_string(), pick_item(r, ty)));
         }
     }
     let mut t = Types::default();
@@ -485,7 +564,7 @@ fn generate(args: &Args, seed: u64, thorough: bool, shard: usize, nshards: usize
     for _ in 0..n {
         let versions = [None, Some("0.2.0"), Some("0.2.1"), Some("1.0.0"), Some("1.1.0")];
         let tv = *r.pick(&versions);
-        let target = Spec {
+        let mut target = Spec {
             version: tv,
             resource: r.chance(1, 3),
             explicit_types: r.chance(1, 3),
@@ -494,6 +573,12 @@ fn generate(args: &Args, seed: u64, thorough: bool, shard: usize, nshards: usize
             run_ret: if r.chance(1, 3) { "u32" } else { "" },
             api_f_param: "r",
             out_h_ret: "string",
+            inl: r.chance(1, 4),
+            world_use: match r.below(10) {
+                0 | 1 => Some("types"),
+                2 => Some("alt"),
+                _ => None,
+            },
         };
         let mut dep = target.clone();
         let mut imports = vec!["api", "log"];
@@ -501,9 +586,13 @@ fn generate(args: &Args, seed: u64, thorough: bool, shard: usize, nshards: usize
             imports.insert(0, "types");
         }
         let mut exports = vec!["out", "run"];
+        if target.inl {
+            exports.push("inl");
+        }
+        let mut decls: Vec<&str> = Vec::new();
         let mut log_ty = "string";
         let mut run_ret = target.run_ret;
-        let label = match r.below(12) {
+        let label = match r.below(19) {
             0 | 1 => "conforming",
             2 => {
                 // imports fewer
@@ -544,6 +633,73 @@ fn generate(args: &Args, seed: u64, thorough: bool, shard: usize, nshards: usize
                     "export-interface-change"
                 }
             }
+            12 | 13 => {
+                // kind confusion: the world exports a function / an instance, the document only
+                // declares a *type* of that name (and the component does not export the name)
+                if r.chance(1, 2) {
+                    exports.retain(|e| *e != "run");
+                    decls.push(if r.chance(1, 5) { "iface-run" } else { "type-run" });
+                    "type-for-func-export"
+                } else {
+                    target.inl = true;
+                    dep.inl = true;
+                    exports.retain(|e| *e != "inl");
+                    decls.push(match r.below(6) {
+                        0 => "iface-inl-wide",
+                        1 => "iface-inl-other",
+                        2 => "type-inl-func",
+                        _ => "iface-inl",
+                    });
+                    "type-for-instance-export"
+                }
+            }
+            14 => {
+                // the world's instance export at another kind / width, or missing
+                target.inl = true;
+                dep.inl = true;
+                exports.retain(|e| *e != "inl");
+                match r.below(3) {
+                    0 => {
+                        exports.push("inl-wide");
+                        "conforming-wider-instance-export"
+                    }
+                    1 => {
+                        exports.push("inl-func");
+                        "func-for-instance-export"
+                    }
+                    _ => "missing-instance-export",
+                }
+            }
+            16 | 17 | 18 => {
+                // a type import of the composition: the component has a world-level `use` (it
+                // imports the interface and the type `r`); the world has the same use / none /
+                // a type `r` of another interface
+                let which = r.below(8);
+                imports.insert(0, if which == 0 { "use-alt-r" } else { "use-r" });
+                match r.below(5) {
+                    0 | 1 => {
+                        target.world_use = Some("types");
+                        dep.world_use = Some("types");
+                        if which == 0 { "world-use-type-differs" } else { "conforming-world-use" }
+                    }
+                    2 | 3 => {
+                        target.world_use = None;
+                        dep.world_use = None;
+                        "world-use-type-not-in-target"
+                    }
+                    _ => {
+                        target.world_use = Some("alt");
+                        dep.world_use = Some("alt");
+                        if which == 0 { "conforming-world-use-alt" } else { "world-use-type-differs" }
+                    }
+                }
+            }
+            15 => {
+                // the document imports a (record) type under the name of a world import of function kind
+                imports.retain(|i| *i != "log");
+                decls.push("record-log");
+                "type-for-func-import"
+            }
             9 => {
                 // the component needs less of `api` than the world offers / more than it offers
                 dep.api_g = !target.api_g;
@@ -561,7 +717,11 @@ fn generate(args: &Args, seed: u64, thorough: bool, shard: usize, nshards: usize
         };
         let explicit_log = r.chance(1, 4);
         let inline = r.chance(1, 2);
-        one_case(&mut out, label, &target, &dep, &imports, &exports, log_ty, run_ret, explicit_log, inline);
+        // a declaration next to a conforming component (an extra type export, or a name clash)
+        if decls.is_empty() && r.chance(1, 12) {
+            decls.push(*r.pick(&["iface-inl", "type-run", "type-inl-func"]));
+        }
+        one_case(&mut out, label, &target, &dep, &imports, &exports, log_ty, run_ret, explicit_log, inline, &decls);
     }
     out.finish();
 }
